@@ -10,8 +10,8 @@
    annotation expressions, at unlimited width, at token level; identifiers, strings, integers, floats at character level.
    Line breaking, statement layout and types are covered only by the differential oracle of vplib/props/c14.py. *)
 From Coq Require Import List NArith ZArith Bool Arith.
-From PV Require Import Lib.ListX Model.FmtLit Model.FmtPratt Model.Fmt Model.FmtStmt Model.FmtInst
-  Proofs.FmtPrattProofs Proofs.FmtProofs Proofs.FmtStmtProofs Proofs.FmtLitProofs Proofs.FmtInstProofs Gen.GenCodegen.
+From PV Require Import Lib.ListX Model.FmtLit Model.FmtPratt Model.Fmt Model.FmtTy Model.FmtStmt Model.FmtInst
+  Proofs.FmtPrattProofs Proofs.FmtProofs Proofs.FmtTyProofs Proofs.FmtStmtProofs Proofs.FmtLitProofs Proofs.FmtInstProofs Gen.GenCodegen.
 From PV Require Model.LexerInterp Proofs.FmtInterpProofs.
 Import ListNotations.
 Local Open Scope N_scope.
@@ -90,10 +90,26 @@ Theorem parse_fuel_monotone : forall f g ts e, (f <= g)%nat -> parse_prql f ts =
 Proof. exact (parse_mono P_prql). Qed.
 Print Assumptions parse_fuel_monotone.
 
+(* ================================================================== type expressions (token level) *)
+(* codegen/types.rs against parser/types.rs `type_expr`: primitives, identifiers, `func`, `func p.. -> r`, tuples with
+   named / unnamed / `*` fields and a trailing `..` / `..ty`, `[]`, `[ty]`.  `wf_ty` = what the parser can produce
+   (primitive names are the seven primitives; fields only in tuples, the wildcard last; no parameter of a function type
+   ends in a bare `func`: `func func int -> bool` is read as a function type inside a bare one and rejected -- there is no
+   way to write such a type).  No table enters: the type grammar has no precedences. *)
+Theorem fmt_type_roundtrip : forall t, wf_ty t = true -> is_field t = false ->
+  exists f0, forall f, (f0 <= f)%nat -> parse_ty f (fmt_ty t) = Some t.
+Proof. exact ty_roundtrip. Qed.
+Print Assumptions fmt_type_roundtrip.
+
+Theorem parse_ty_fuel_monotone : forall f g ts t, (f <= g)%nat -> parse_ty f ts = Some t -> parse_ty g ts = Some t.
+Proof. exact parse_ty_mono. Qed.
+Print Assumptions parse_ty_fuel_monotone.
+
 (* ================================================================== whole programs (statement layer, token level) *)
 (* Stmt::write / Vec<Stmt>::write against parser/stmt.rs: annotations, `let` (with and without value), main pipelines
-   (one element per line) and `into`, `import` (with alias), nested `module`s; trees modulo doc comments (the formatter
-   prints none and the property ignores them); `type`, `let x <ty>` and the `prql` header are outside the model.
+   (one element per line) and `into`, `import` (with alias), `type n = ty` (Model/FmtTy.v), nested `module`s; trees modulo
+   doc comments (the formatter prints none and the property ignores them); `let x <ty>` and the `prql` header are outside
+   the model.
    Full statement (FALSE -- finding C14-doc-comment-split):
      forall ss, wf_prog ss = true -> ops_ok_prog nbin nun ss = true ->
        exists f0, forall f, f0 <= f -> parse_prog_prql f (fmt_prog_toks ss) = Some ss
@@ -256,6 +272,12 @@ Example ex_interpolation :
   FmtInterpProofs.canon parts = true /\
   interp_text R_prql false parts = [102;34;97;32;123;120;46;96;98;32;99;96;58;62;49;48;125;125;125;32;92;34;113;92;34;10;34].
 Proof. vm_compute. split; reflexivity. Qed.
+Example ex_types : forallb (fun t => wf_ty t && negb (is_field t)) type_witnesses = true /\
+  map (fun t => parse_ty 30 (fmt_ty t)) type_witnesses = map Some type_witnesses /\
+  wf_ty type_nonwitness = false /\ parse_ty 30 (fmt_ty type_nonwitness) = None /\
+  fmt_ty_text (nth 0 type_witnesses TyArr0) =
+    [123;97;32;61;32;105;110;116;44;32;98;32;61;32;91;116;101;120;116;93;44;32;102;117;110;99;32;105;110;116;32;109;46;116;121;32;45;62;32;98;111;111;108;44;32;99;32;61;32;42;44;32;46;46;125].
+Proof. vm_compute. repeat split; reflexivity. Qed.
 Example ex_alias_text : fmt_text (EBin 5 (idn 97) (EAlias [120] (idn 98))) = [97; 32; 43; 32; 40; 120; 32; 61; 32; 98; 41]   (* a + (x = b) *)
   /\ fmt_text (ERng (par_atom 97) (idn 98)) = [40; 36; 97; 41; 46; 46; 98]                                                (* ($a)..b *)
   /\ fmt_text (ERngL (EUn 0 (par_atom 97))) = [45; 40; 36; 97; 41; 46; 46].                                               (* -($a).. *)
